@@ -371,6 +371,7 @@ func runC08(cw *caseWriter, tier string, seed uint64) {
 		runScenarios(cw, 11, seed*100000, 300, 12)
 		runScenarios(cw, 1, seed*100000, 1500, 12)
 	}
+	runC102(cw, tier, seed, 3) // acknowledgements of Apply calls on scripted real clusters (Model/ClusterCommit.v)
 }
 
 func runC03(cw *caseWriter, tier string, seed uint64) {
